@@ -359,6 +359,12 @@ static Case gen_case(bool th)
     gen_shape(th, w, h);
     gen_shape(th, w2, h2);
     gen_shape(th, w3, h3);
+    // histories that re-use storage are interesting when the earlier shape is the same or almost the same as the final one
+    // (the capacity test and the alignment of the rows then decide whether the old buffer is kept)
+    int near = verif::weighted({55, 15, 10, 10, 10});
+    if (near == 1) { w2 = w; h2 = h; } else if (near == 2) { w2 = h; h2 = w; } else if (near == 3) { w2 = w + 1; h2 = h; } else if (near == 4) { w2 = w; h2 = h + 1; }
+    int near3 = verif::weighted({70, 15, 15});
+    if (near3 == 1) { w3 = w; h3 = h; } else if (near3 == 2) { w3 = w2; h3 = h2; }
     c.set("w", w); c.set("h", h); c.set("w2", w2); c.set("h2", h2); c.set("w3", w3); c.set("h3", h3);
     int rk = verif::weighted({60, 25, 15});
     c.set("rk", rk);
